@@ -172,6 +172,10 @@ def fde_insns(f, arch):
     out = b""
     if not f.get("ok", True):
         out += b"\x3c"                                     # unknown CFA opcode -> gimli error
+    # rules for the other callee-saved registers, as every compiler emits them (framehop ignores them, gimli has
+    # to keep them: one slot each in the row's rule storage)
+    for k, reg in enumerate(f.get("extra_regs", ())):
+        out += b"\x11" + uleb(reg) + sleb(-(0x200 + 8 * k))       # DW_CFA_offset_extended_sf
     prev = 0
     vendor_at = f.get("vendor_at") if arch == "a64" else None
     vendor_done = False
@@ -370,7 +374,7 @@ class Script:
     def module_none(self, mid, start, end, base_avma, base_svma):
         return self.add("mod %s %s %s %s %s A none B 0" % (mid, hx(start), hx(end), hx(base_avma), hx(base_svma)))
     def module_dwarf(self, mid, start, end, base_avma, base_svma, pres, fdes, rng=None,
-                     shuffle=False, n_cies=1, eh_svma=None, hdr_svma=None, hdr_enc="abs8", pcrel=False, mixed=False):
+                     shuffle=False, n_cies=1, eh_svma=None, hdr_svma=None, hdr_enc="abs8", pcrel=False, mixed=False, macho_names=False):
         order = list(range(len(fdes)))
         if shuffle and rng is not None:
             rng.shuffle(order)
@@ -392,6 +396,8 @@ class Script:
         a = ["dwarf", pres] + fdes_tokens(sec_fdes)
         b = [str(len(secs))]
         for name, data, rngs in secs:
+            if macho_names and name in (".eh_frame", ".eh_frame_hdr"):
+                name = "_" + name.replace(".", "_")        # a DWARF-only image whose sections carry the Mach-O spelling
             # section ranges are u64 in the API: a range that would end beyond the address space is clipped
             b += [name, hexs(data)] + ([hx(min(rngs[0], M64)), hx(min(rngs[1], M64))] if rngs else ["-", "-"])
         return self.add("mod %s %s %s %s %s A %s B %s" % (mid, hx(start), hx(end), hx(base_avma), hx(base_svma),
